@@ -110,7 +110,10 @@ func runC04(c *Check) {
 	// ---- R3 total
 	if ct := c.anchorFn("C04-R3", "internal/report", "computeTotal"); ct != nil {
 		usesBase, usesAbs := false, false
-		forEachFuncAndAnon(ct, func(g *ssa.Function) {
+		for _, g := range withHelpers(ct, 2) {
+			if g.Name() == "abs64" {
+				continue
+			}
 			for _, b := range g.Blocks {
 				for _, ins := range b.Instrs {
 					if call, ok := ins.(*ssa.Call); ok && call.Call.StaticCallee() != nil {
@@ -128,7 +131,7 @@ func runC04(c *Check) {
 					}
 				}
 			}
-		})
+		}
 		if usesBase && usesAbs {
 			c.ok("C04-R3", "total", p.relFile(ct.Pos()), "the report total sums absolute values and uses the base samples for diffs", "computeTotal calls DiffBaseSample and takes absolute values")
 		} else {
